@@ -430,6 +430,8 @@ pub struct SimSource {
     budget: u64,
     /// inject an error at this read call (0-based), once
     pub error_at_read: Option<u64>,
+    /// (offset, length, times): this range of the image is seen `times` times in a row (in-memory images only)
+    pub replay: Option<(u64, u64, u64)>,
     pub stats: Rc<RefCell<SrcStats>>,
 }
 
@@ -442,6 +444,7 @@ impl SimSource {
             sched: SchedState::new(sched),
             budget,
             error_at_read: None,
+            replay: None,
             stats: Rc::new(RefCell::new(SrcStats::default())),
         }
     }
@@ -453,7 +456,24 @@ impl SimSource {
         Ok(s)
     }
     fn total_len(&self) -> u64 {
-        self.file.as_ref().map(|f| f.1).unwrap_or(self.image.len() as u64)
+        self.file.as_ref().map(|f| f.1).unwrap_or(self.image.len() as u64 + self.replay.map_or(0, |(_, l, k)| l * k.saturating_sub(1)))
+    }
+    /// where in the image the byte at this position of the (replayed) stream lies, and how many bytes follow it there
+    fn real_span(&self, vpos: u64) -> (usize, usize) {
+        let ilen = self.image.len() as u64;
+        match self.replay {
+            Some((o, l, k)) if k > 1 && l > 0 && vpos >= o + l => {
+                if vpos < o + l * k {
+                    let r = (vpos - o) % l;
+                    ((o + r) as usize, (l - r) as usize)
+                } else {
+                    let real = vpos - l * (k - 1);
+                    (real as usize, ilen.saturating_sub(real) as usize)
+                }
+            }
+            Some((o, l, _)) => (vpos as usize, (o + l).saturating_sub(vpos) as usize),
+            None => (vpos as usize, ilen.saturating_sub(vpos) as usize),
+        }
     }
     pub fn stats_handle(&self) -> Rc<RefCell<SrcStats>> {
         self.stats.clone()
@@ -536,8 +556,13 @@ impl Read for SimSource {
             f.seek(SF::Start(self.pos))?;
             f.read_exact(&mut buf[..n])?;
         } else {
-            let p = self.pos as usize;
-            buf[..n].copy_from_slice(&self.image[p..p + n]);
+            let (p, room) = self.real_span(self.pos);
+            // a replayed range ends here: the call returns what precedes the seam (a short read)
+            let n2 = n.min(room);
+            buf[..n2].copy_from_slice(&self.image[p..p + n2]);
+            self.pos += n2 as u64;
+            log_seam(b'r', buf.len() as u64, n2 as u64);
+            return Ok(n2);
         }
         self.pos += n as u64;
         log_seam(b'r', buf.len() as u64, n as u64);
